@@ -20,6 +20,24 @@ impl<K: KeyV, V> HashMap<K, V> {
     #[verifier::external_body] pub fn get<Q: KeyV<KV = K::KV> + ?Sized>(&self, k: &Q) -> (r: Option<&V>)
         ensures match r { Some(v) => self@.dom().contains(k.kv()) && *v == self@[k.kv()], None => !self@.dom().contains(k.kv()) } { unimplemented!() }
     #[verifier::external_body] pub fn contains_key<Q: KeyV<KV = K::KV> + ?Sized>(&self, k: &Q) -> (r: bool) ensures r == self@.dom().contains(k.kv()) { unimplemented!() }
+    // R12 target for `for (k, v) in map` (by value): every entry exactly once, in an unspecified order
+    #[verifier::external_body] pub fn into_vec(self) -> (r: Vec<(K, V)>)
+        ensures
+            forall|i: int| 0 <= i < r@.len() ==> self@.dom().contains((#[trigger] r@[i]).0.kv()) && self@[r@[i].0.kv()] == r@[i].1,
+            forall|k: K::KV| self@.dom().contains(k) ==> exists|i: int| 0 <= i < r@.len() && (#[trigger] r@[i]).0.kv() == k,
+            forall|i: int, j: int| 0 <= i < j < r@.len() ==> (#[trigger] r@[i]).0.kv() != (#[trigger] r@[j]).0.kv(),
+    { unimplemented!() }
+}
+// the value `Default::default()` of the value types used with the entry API
+pub trait DefaultV { spec fn is_default(&self) -> bool; }
+impl<T> DefaultV for Vec<T> { open spec fn is_default(&self) -> bool { self@.len() == 0 } }
+impl<K: KeyV, V> DefaultV for HashMap<K, V> { open spec fn is_default(&self) -> bool { self@ == Map::<K::KV, V>::empty() } }
+impl<K: KeyV, V: DefaultV> HashMap<K, V> {
+    // R12 target for `map.entry(k).or_default()`: a mutable reference to the entry's value (a default value is inserted first when the
+    // key was absent); when the borrow ends the map holds whatever the value became, all other entries untouched
+    #[verifier::external_body] pub fn entry_or_default(&mut self, k: K) -> (r: &mut V)
+        ensures old(self)@.dom().contains(k.kv()) ==> *r == old(self)@[k.kv()], !old(self)@.dom().contains(k.kv()) ==> r.is_default(),
+            final(self)@ == old(self)@.insert(k.kv(), *final(r)) { unimplemented!() }
 }
 
 #[verifier::external_body]
